@@ -50,6 +50,12 @@ Definition tag_payload (t : tag) : bytes :=
   firstn (length (tg_raw t) - tag_header_size - prev_tag_size_field_size)
          (skipn tag_header_size (tg_raw t)).
 
+(* Tag.ModTagTimestamp(timestamp): rewrites the 24+8-bit timestamp in place *)
+Definition mod_tag_timestamp (t : tag) (ts : N) : tag :=
+  let raw := tg_raw t in
+  {| tg_header := {| th_type := th_type (tg_header t); th_size := th_size (tg_header t); th_ts := u32 ts |};
+     tg_raw := firstn 4 raw ++ be_put 3 (u32 ts) ++ [(u32 ts / 16777216) mod 256] ++ skipn 8 raw |}.
+
 (* FlvFileWriter: WriteFlvHeader then WriteTag(tag.Raw) / WriteRaw *)
 Definition flv_file (tags : list bytes) : bytes := flv_header ++ concat tags.
 
